@@ -18,7 +18,11 @@ func (ex *Exec) fieldHeapName(f *types.Var) string {
 	if owner == "" {
 		owner = fmt.Sprintf("anon%d", ex.cx.fieldID(f))
 	}
-	return "F!" + owner + "." + f.Name()
+	name := "F!" + owner + "." + f.Name()
+	if _, ok := ex.heapElemType[name]; !ok {
+		ex.heapElemType[name] = f.Type()
+	}
+	return name
 }
 
 func contentHeapName(sort string) string { return "A!" + mangle(sort) }
